@@ -130,11 +130,13 @@ theorem Step.handleSubscribe (S : Sites Sn Mq) (g : Gw) (dup : Bool) (qos tit : 
     split
     · split
       · split
-        · rename_i id g' h
-          refine Step.trans (Step.newTopicId' h) ?_
-          exact Step.trans (Step.storeRegistered _ _ _) (Step.forwardSubscribe S _ _ _ _ _ _ hq')
-        · rename_i g' h
-          exact Step.trans (Step.newTopicId' h) (Step.snSend _ _ none (S.suback _ _ _ _ (by decide)))
+        · exact Step.forwardSubscribe S _ _ _ _ _ _ hq'
+        · split
+          · rename_i id g' h
+            refine Step.trans (Step.newTopicId' h) ?_
+            exact Step.trans (Step.storeRegistered _ _ _) (Step.forwardSubscribe S _ _ _ _ _ _ hq')
+          · rename_i g' h
+            exact Step.trans (Step.newTopicId' h) (Step.snSend _ _ none (S.suback _ _ _ _ (by decide)))
       · exact Step.forwardSubscribe S _ _ _ _ _ _ hq'
     · split
       · split
